@@ -64,7 +64,7 @@ def check(case: dict):
     mgs = {"none": None, "n": n, "20": max(20, n)}[case["mgs"]]
     flavour = case["flavour"]
     np.random.seed(case["np_seed"] % (2**32))
-    m = L.make_kind(kind, g, sol)
+    m = L.make_kind(kind, g, sol, dtype=L.provenance(case, g))
     tok = _tokenizer(mode, flavour, mgs)
     sig = f"C07:{mode}:{flavour}"
     toks = call(f"{sig}:as_tokens", m.as_tokens, tok)
@@ -98,7 +98,7 @@ def check_dataset(case: dict):
 
     n, items, mode, flavour = case["n"], case["items"], case["mode"], case["flavour"]
     np.random.seed(case["np_seed"] % (2**32))
-    ds = MazeDataset(MazeDatasetConfig(name="t", grid_n=n, n_mazes=len(items)), [L.solved(it["g"], it["sol"]) for it in items])
+    ds = MazeDataset(MazeDatasetConfig(name="t", grid_n=n, n_mazes=len(items)), [L.solved(it["g"], it["sol"], dtype=L.provenance([case, i], it["g"])) for i, it in enumerate(items)])
     tok = _tokenizer(mode, flavour, None)
     limit, join = case["limit"], case["join"]
     sig = f"C07:dataset:{flavour}"
